@@ -634,8 +634,9 @@ class C13(Prop):
         "x sync/async x {get_template, include (name as data), render, extends (name as literal)}. A case is "
         "non-trivial when the name contains '.', '..', empty or absolute components, or, joined to a configured "
         "root by plain path arithmetic, denotes an existing file outside every configured root; distinct by "
-        "SHA-1 of the case. 'exhaustive' means: over the bounded grammar x the 20 enumerated configurations "
-        "x 2 modes x 4 access paths"
+        "SHA-1 of the case. thorough is exhaustive over the bounded grammar x the 20 enumerated configurations "
+        "x 2 modes x 4 access paths; quick pairs every grammar name with every loader kind and half of the "
+        "(search paths, extension) combinations (all 20 for the control, absolute and long '..' names)"
     )
     assumptions = [
         "POSIX path semantics (separator '/', no drive letters); the sandbox contains no symbolic links, so "
@@ -661,14 +662,24 @@ class C13(Prop):
         return random_case()
 
     def enumerate(self, tier: str, disabled: frozenset[str]):
-        # control and hand-picked names first, then the bounded grammar; every configuration each
-        names = control_names() + extra_names()
-        seen = set(names)
-        for name in grammar_names(3 if tier == "quick" else 4):
-            if name not in seen:
-                names.append(name)
-        for name in names:
+        # control and hand-picked names: every configuration, both tiers
+        fixed = control_names() + extra_names()
+        seen = set(fixed)
+        for name in fixed:
             for cfg in ENUM_CONFIGS:
+                yield self._case(name, cfg)
+        # grammar names: thorough = every configuration; quick = every loader kind, and for each kind two
+        # of the four (search paths, extension) combinations, complementary and alternating with the name
+        index = 0
+        for name in grammar_names(3 if tier == "quick" else 4):
+            if name in seen:
+                continue
+            index += 1
+            for ci, cfg in enumerate(ENUM_CONFIGS):
+                if tier == "quick":
+                    combo = ci % 4  # 0: one path/no ext, 1: one path/ext, 2: two paths/no ext, 3: two paths/ext
+                    if (combo in (0, 3)) != ((index + ci // 4) % 2 == 0):
+                        continue
                 yield self._case(name, cfg)
 
     @staticmethod
@@ -680,7 +691,9 @@ class C13(Prop):
         return case
 
     def enumerated_is_exhaustive(self, tier: str) -> bool:
-        return True  # over the bounded grammar x the 20 enumerated configurations x modes x access paths
+        # quick pairs every grammar name with every loader kind but only half of the
+        # (search paths, extension) combinations
+        return tier == "thorough"
 
     def budget_s(self, tier: str) -> float:
         return 240 if tier == "quick" else 3000
